@@ -132,7 +132,7 @@ def unit(draw):
 def psd3(draw):
     """Symmetric positive semi-definite 3x3 (full rank, rank 2, rank 1, diagonal, zero), scales 1e-8 .. 1."""
     kind = draw(st.sampled_from(["full", "full", "rank2", "rank1", "diag", "zero", "illcond"]))
-    scale = draw(S.log_uniform(1e-8, 1.0))
+    scale = draw(st.one_of(S.log_uniform(1e-8, 1.0), S.log_uniform(1e-8, 1.0), S.log_uniform(1e-14, 1e4)))
     if kind == "zero":
         return [[0.0] * 3 for _ in range(3)]
     if kind == "diag":
